@@ -24,6 +24,80 @@ func init() {
 	}
 }
 
+// Caller-owned slices. Every method list and middleware list handed to mux is the front part of a larger array whose
+// hidden tail holds sentinels (the way `base := make([]T, 0, n)` / `append(base, x)` lists look in real programs). The
+// library may read its argument; it must not write to it - neither to the visible part nor to the spare capacity, where
+// another list of the caller may live. After the call the whole array is compared with what the caller put there.
+type callerSliceModified struct{ what string }
+
+func (e callerSliceModified) Error() string { return e.what }
+
+type methodArena struct {
+	all  []string
+	n    int
+	call string
+}
+
+func lendMethods(call string, ms []string) (*methodArena, []string) {
+	all := make([]string, len(ms), len(ms)+3)
+	copy(all, ms)
+	all = append(all, "SENTINEL-A", "SENTINEL-B", "SENTINEL-C")
+	return &methodArena{all: append([]string(nil), all...), n: len(ms), call: call}, all[:len(ms):len(all)]
+}
+
+// check panics (outside any recover of the engines: RunCase reports it) when lent differs from what was lent.
+func (a *methodArena) check(lent []string) {
+	full := lent[:cap(lent)]
+	for i := range a.all {
+		if full[i] != a.all[i] {
+			panic(callerSliceModified{fmt.Sprintf("%s modified the caller's method list: element %d of the backing array (list length %d) was %q and is %q now - a list of the caller that shares the array is changed", a.call, i, a.n, a.all[i], full[i])})
+		}
+	}
+}
+
+type mwArena struct {
+	all  []muxMW
+	n    int
+	call string
+}
+
+var mwSentinels = [3]muxMW{mon.NewEnv().MW("SENTINEL-A"), mon.NewEnv().MW("SENTINEL-B"), mon.NewEnv().MW("SENTINEL-C")}
+
+func lendMiddlewares(call string, ms []muxMW) (*mwArena, []muxMW) {
+	all := make([]muxMW, len(ms), len(ms)+3)
+	copy(all, ms)
+	all = append(all, mwSentinels[0], mwSentinels[1], mwSentinels[2])
+	return &mwArena{all: append([]muxMW(nil), all...), n: len(ms), call: call}, all[:len(ms):len(all)]
+}
+
+func (a *mwArena) check(lent []muxMW) {
+	full := lent[:cap(lent)]
+	for i := range a.all {
+		if full[i] != a.all[i] {
+			panic(callerSliceModified{fmt.Sprintf("%s modified the caller's middleware list: element %d of the backing array (list length %d) was replaced - a list of the caller that shares the array is changed", a.call, i, a.n)})
+		}
+	}
+}
+
+// takeRoutes calls Routes() and treats the result the way a caller may: the harness keeps a deep copy for itself and
+// then empties and overwrites the map it was given (its own now). A router that hands out part of its state - a cached
+// map, a shared method list - shows the scribbles in what it (or another router) answers next.
+func takeRoutes(rt *mux.Router[*mon.Hnd]) map[string][]string {
+	got := rt.Routes()
+	out := make(map[string][]string, len(got))
+	for k, v := range got {
+		out[k] = append([]string(nil), v...)
+		for i := range v {
+			v[i] = "SCRIBBLED-BY-CALLER"
+		}
+		delete(got, k)
+	}
+	if got != nil {
+		got["/scribbled-by-caller"] = []string{"SCRIBBLED"}
+	}
+	return out
+}
+
 func icOptions(s gen.ICSet) []mux.Option {
 	names := make([]string, 0, len(s.Funcs))
 	for n := range s.Funcs {
@@ -42,17 +116,24 @@ func icOptions(s gen.ICSet) []mux.Option {
 
 // tryHandle calls Handle and reports whether it was accepted; the panic value is returned.
 func tryHandle(r *mux.Router[*mon.Hnd], pattern string, h *mon.Hnd, ms []string, mws ...*mon.MW) (ok bool, pv any) {
-	defer func() {
-		if p := recover(); p != nil {
-			ok, pv = false, p
-		}
-	}()
 	var m []muxMW
 	for _, x := range mws {
 		m = append(m, x)
 	}
-	r.Handle(pattern, h, m, ms...)
-	return true, nil
+	am, lm := lendMiddlewares("Handle", m)
+	as, ls := lendMethods("Handle", ms)
+	func() {
+		defer func() {
+			if p := recover(); p != nil {
+				ok, pv = false, p
+			}
+		}()
+		r.Handle(pattern, h, lm, ls...)
+		ok = true
+	}()
+	am.check(lm)
+	as.check(ls)
+	return ok, pv
 }
 
 func fmtParams(m map[string]string) string {
